@@ -296,3 +296,25 @@ Lemma u_rich_refutes_premise2 :
   (total_letters 0 h <=? 4 * class_count only_po 0 h) = true /\ (0 <? exact_margin h) = true /\
   detect_alphabet h = Some ALN_BIOTYPE_DNA.
 Proof. vm_compute. repeat split; reflexivity. Qed.
+
+(* the sums look at letter entries only *)
+Lemma detect_loop_letters_only : forall f1 f2 i dna prot sd sp,
+  length f1 = length f2 ->
+  (forall k, isalpha (i + Z.of_nat k) = true -> nth k f1 0 = nth k f2 0) ->
+  detect_loop i f1 dna prot sd sp = detect_loop i f2 dna prot sd sp.
+Proof.
+  induction f1 as [|c1 f1 IH]; intros [|c2 f2] i dna prot sd sp Hl H; simpl in Hl; try lia; [reflexivity|].
+  cbn [detect_loop]. destruct dna as [|d dna]; [reflexivity|]. destruct prot as [|p prot]; [reflexivity|].
+  assert (forall k, isalpha (i + 1 + Z.of_nat k) = true -> nth k f1 0 = nth k f2 0) as H'.
+  { intros k Hk. apply (H (S k)). rewrite <- Hk. f_equal. lia. }
+  destruct (isalpha i) eqn:Ea.
+  - assert (c1 = c2) as -> by (apply (H 0%nat); rewrite <- Ea; f_equal; lia).
+    destruct (negb (c2 =? 0)); cbn [andb]; apply IH; auto; lia.
+  - rewrite !andb_false_r. apply IH; auto; lia.
+Qed.
+
+Theorem detect_sums_letters_only f1 f2 :
+  length f1 = length f2 ->
+  (forall i, isalpha (Z.of_nat i) = true -> nth i f1 0 = nth i f2 0) ->
+  detect_sums f1 = detect_sums f2.
+Proof. intros Hl H. unfold detect_sums. apply detect_loop_letters_only; auto. Qed.
